@@ -248,7 +248,7 @@ def run_range(cx, model_first, PRED):
             if rep[0] == "ok" or int(rep[1]) > lvl:
                 # accepted (or failed only later) although level `lvl` is invalid
                 cls = lenient_class(ty, fd, chain, lvl, base)
-                cx.fail("iff", ("ungrammatical" if cls == "F51" else "invalid (not ascending / not narrowing / out of type)") + " range restriction accepted",
+                cx.fail("iff", ("ungrammatical" if cls in ("F51", "F53") else "invalid (not ascending / not narrowing / out of type)") + " range restriction accepted",
                         {"type": ty, "fd": fd, "chain_hex": [hexs(x) for x in chain], "level": lvl, "reply": rep, "finding_class": cls})
 
     # ---- end to end: membership at the part edges, derived ⊆ base on the implementation's own verdicts ---------------
@@ -289,10 +289,32 @@ def run_range(cx, model_first, PRED):
             continue
         for k, v in enumerate(vals):
             if rep[1][k] == "1" and prep[1][k] != "1":
-                cls = "F51" if ref_parse(ty, fd, chain[-1]) is None else None
+                cls = "F51" if (ref_parse(ty, fd, chain[-1]) is None and juxtaposed(chain[-1])) else None
                 cx.fail("iff", "derived type accepts a value its base type rejects",
                         {"type": ty, "fd": fd, "chain_hex": [hexs(x) for x in chain], "value": v, "finding_class": cls})
                 break
+
+
+TOKEN_RE = re.compile(rb"[ \t\n\r\x0b\x0c]+|min|max|\.\.|\||[+-]?[0-9]*(?:\.[0-9]+)?")
+
+
+def juxtaposed(s):
+    """two boundaries (number / min / max) follow each other with only blanks in between: the F51 shape"""
+    toks, i = [], 0
+    while i < len(s):
+        m = TOKEN_RE.match(s, i)
+        if not m or m.end() == i:
+            return False if not toks else _jux(toks)
+        t = m.group(0)
+        if t.strip(b" \t\n\r\x0b\x0c"):
+            toks.append(t)
+        i = m.end()
+    return _jux(toks)
+
+
+def _jux(toks):
+    isb = lambda t: t not in (b"..", b"|")
+    return any(isb(a) and isb(b) for a, b in zip(toks, toks[1:]))
 
 
 def strict_class(ty, fd, chain):
@@ -317,7 +339,7 @@ def lenient_class(ty, fd, chain, lvl, base):
     shape `...N|max` with N equal to the maximum (stand-alone `max` part compared non-strictly: duplicate part)"""
     a = ref_parse(ty, fd, chain[lvl])
     if a is None:
-        return "F51"
+        return "F51" if juxtaposed(chain[lvl]) else "F53"
     if len(a) >= 2 and a[-1] == ("max", "max") and ref_eval(ty, base, a[:-1]) is not None:
         return "F52"
     return None
